@@ -160,38 +160,62 @@ theorem alphaBeta_final_any (c : Comp σ π) (L : Limits) {Good : Board → Prop
           rw [if_neg hnd']
         · exact Or.inr h
 
-/-- the windows of an aspiration chain on a final root from iteration 2 on: fail-highs only. -/
-def FinAsp (fs alpha beta f : Int) : Prop :=
-  alpha = fs - 44 ∧ beta = fs + 44 * f ∧ Pow2 f ∧ f ≤ 512 ∧ (fs = 0 ∨ fs = -10000)
+/-- the windows of an aspiration chain (window size `W`) on a final root from iteration 2 on: fail-highs
+    only. -/
+def FinAsp (W fs alpha beta f : Int) : Prop :=
+  alpha = fs - W ∧ beta = fs + f * W ∧ Pow2 f ∧ fs + f * W ≤ 30000 ∧ (fs = 0 ∨ fs = -10000)
 
-theorem finAsp_rootWin {fs a b f : Int} (h : FinAsp fs a b f) : RootWin a b := by
+theorem finAsp_rootWin {W fs a b f : Int} (hW : WSafe W) (h : FinAsp W fs a b f) : RootWin a b := by
   obtain ⟨ha, hb, hp, hf, hfs⟩ := h
-  have := pow2_range hp
+  have hf1 := (pow2_range hp).1
+  unfold WSafe at hW
+  have hp0 : W ≤ f * W := by
+    have := Int.mul_le_mul_of_nonneg_right hf1 (show (0 : Int) ≤ W by omega)
+    omega
+  generalize f * W = p at *
   unfold RootWin WinOK rfpSafe; omega
 
-theorem finAsp_first {fs : Int} (hfs : fs = 0 ∨ fs = -10000) : FinAsp fs (wrapS16 (fs - 44)) (wrapS16 (fs + 44)) 1 := by
+theorem finAsp_first {W fs : Int} (hW : WSafe W) (hfs : fs = 0 ∨ fs = -10000) :
+    FinAsp W fs (wrapS16 (fs - W)) (wrapS16 (fs + W)) 1 := by
+  unfold WSafe at hW
   rw [wrapS16_id (by omega) (by omega), wrapS16_id (by omega) (by omega)]
   exact ⟨rfl, by omega, Or.inl rfl, by omega, hfs⟩
 
 /-- one fail-high on a final root: the widened window is again of that form. -/
-theorem finAsp_step {fs a b f sample : Int} (h : FinAsp fs a b f) (hs : InR sample) (hhigh : b ≤ sample) :
-    FinAsp fs (if sample ≤ a then wrapS16 (a - wrapS16 (f * 44)) else a)
-      (if sample ≤ a then b else if sample ≥ b then wrapS16 (b + wrapS16 (f * 44)) else b) (wrapS16 (f * 2)) := by
+theorem finAsp_step {W fs a b f sample : Int} (hW : WSafe W) (h : FinAsp W fs a b f) (hs : InR sample) (hhigh : b ≤ sample) :
+    FinAsp W fs (if sample ≤ a then wrapS16 (a - wrapS16 (f * W)) else a)
+      (if sample ≤ a then b else if sample ≥ b then wrapS16 (b + wrapS16 (f * W)) else b) (wrapS16 (f * 2)) := by
   obtain ⟨ha, hb, hp, hf, hfs⟩ := h
   have hf1 := (pow2_range hp).1
+  have hW' := hW
+  unfold WSafe at hW'
   unfold InR at hs
-  have hnl : ¬ sample ≤ a := by omega
-  have hf454 : f ≤ 454 := by omega
-  have hf256 : f ≤ 256 := by unfold Pow2 at hp; omega
-  rw [if_neg hnl, if_neg hnl, if_pos hhigh, wrapS16_id (x := f * 44) (by omega) (by omega),
-    wrapS16_id (x := b + f * 44) (by omega) (by omega), wrapS16_id (x := f * 2) (by omega) (by omega)]
-  refine ⟨ha, by omega, ?_, by omega, hfs⟩
-  unfold Pow2 at hp ⊢; omega
+  have hp0 : W ≤ f * W := by
+    have := Int.mul_le_mul_of_nonneg_right hf1 (show (0 : Int) ≤ W by omega)
+    omega
+  have hfb : f * W ≤ 40000 - 2 * W := by
+    generalize f * W = p at *
+    omega
+  obtain ⟨hb1, hb2, hb3, hb4⟩ := fail_bound hW hp hfb
+  have hnl : ¬ sample ≤ a := by
+    generalize f * W = p at *
+    omega
+  rw [if_neg hnl, if_neg hnl, if_pos hhigh, wrapS16_id (x := f * 2) (by omega) (by omega)]
+  unfold FinAsp
+  rw [hb4]
+  generalize f * W = p at *
+  rw [wrapS16_id (x := p) (by omega) (by omega), wrapS16_id (x := b + p) (by omega) (by omega)]
+  exact ⟨ha, by omega, hb3, by omega, hfs⟩
 
 /-- the result `fs` of a final root lies strictly inside every window of that form. -/
-theorem finAsp_inside {fs a b f : Int} (h : FinAsp fs a b f) : a < fs ∧ fs < b := by
+theorem finAsp_inside {W fs a b f : Int} (hW : WSafe W) (h : FinAsp W fs a b f) : a < fs ∧ fs < b := by
   obtain ⟨ha, hb, hp, _, _⟩ := h
-  have := (pow2_range hp).1
+  have hf1 := (pow2_range hp).1
+  unfold WSafe at hW
+  have hp0 : W ≤ f * W := by
+    have := Int.mul_le_mul_of_nonneg_right hf1 (show (0 : Int) ≤ W by omega)
+    omega
+  generalize f * W = p at *
   omega
 
 /-- the aspiration loop of an iteration ≥ 1 on a final root, from a fail-high-only window (guarded by
@@ -199,7 +223,7 @@ theorem finAsp_inside {fs a b f : Int} (h : FinAsp fs a b f) : a < fs ∧ fs < b
 theorem aspiration_final (c : Comp σ π) (L : Limits) {Good : Board → Prop} {TTok : σ → Prop} {μ : Board → Nat}
     (hl : Laws c Good) (sl : ScoreLaws c Good TTok μ) (al : AspLaws c) (fuel : Nat) (idD : Int) (hd : 1 ≤ idD) :
     ∀ (n : Nat) (alpha beta factor : Score) (s : St σ), Good s.board → TTA TTok t0 s → Final c.keys s.board →
-      (s.nmpOut = false → FinAsp (fsOf s.board) alpha beta factor) →
+      (s.nmpOut = false → FinAsp c.windowSize (fsOf s.board) alpha beta factor) →
       TTA TTok t0 (aspiration c L fuel idD n alpha beta factor s).st ∧
       (∀ al be sa s', aspiration c L fuel idD n alpha beta factor s = .ok al be sa s' → s'.nmpOut = false →
         sa = fsOf s.board ∧ s'.pv.row 0 = []) := by
@@ -212,10 +236,10 @@ theorem aspiration_final (c : Comp σ π) (L : Limits) {Good : Board → Prop} {
     intro alpha beta factor s hg htt hfin hinv
     have hab := alphaBeta_spec c L hl fuel alpha beta idD 0 .pv s hg htt.1 (Int.le_refl 0)
     have hrg := alphaBeta_range c L hl sl fuel alpha beta idD 0 .pv s hg (Int.le_refl 0) (by decide)
-      (fun hA => (finAsp_rootWin (hinv hA)).1) htt
+      (fun hA => (finAsp_rootWin al.windowSafe (hinv hA)).1) htt
     have hany := fun (hw : RootWin alpha beta) => alphaBeta_final_any c L hl fuel alpha beta idD hd
       (fun se h => sl.rfp_sound idD se beta (by omega) hw.2 h) s hg htt.1 hfin
-    simp only [aspiration, al.window44]
+    simp only [aspiration]
     simp only at hany
     generalize alphaBeta c L fuel alpha beta idD 0 .pv s = r at hab hrg hany ⊢
     have haf := abort_frame L r.2
@@ -240,21 +264,21 @@ theorem aspiration_final (c : Comp σ π) (L : Limits) {Good : Board → Prop} {
         cases h
         simp only [Bool.and_eq_true, Bool.not_eq_true', decide_eq_false_iff_not] at hin
         have hlt : r.1 < beta := Int.not_le.1 hin.2
-        rcases hany (finAsp_rootWin (hinv (hback hA))) hrab with h | h
+        rcases hany (finAsp_rootWin al.windowSafe (hinv (hback hA))) hrab with h | h
         · exact ⟨h.1, by rw [hap]; exact h.2⟩
         · exact absurd hlt (Int.not_lt.2 h)
       · next hnin =>
         -- not in the window: the result is not the final value, so it is a fail-high
         have hhigh : as.2.nmpOut = false → beta ≤ r.1 := fun hA => by
-          have hins := finAsp_inside (hinv (hback hA))
-          rcases hany (finAsp_rootWin (hinv (hback hA))) hrab with h | h
+          have hins := finAsp_inside al.windowSafe (hinv (hback hA))
+          rcases hany (finAsp_rootWin al.windowSafe (hinv (hback hA))) hrab with h | h
           · exfalso; apply hnin
             have h1 : ¬ r.1 ≤ alpha := by rw [h.1]; exact Int.not_le.2 hins.1
             have h2 : ¬ r.1 ≥ beta := by rw [h.1]; exact Int.not_le.2 hins.2
             simp [h1, h2]
           · exact h
         have hb2 : as.2.board = s.board := by rw [haf.board, hab.1.board]
-        have hstep := fun (hA : as.2.nmpOut = false) => finAsp_step (hinv (hback hA)) (hsr hA) (hhigh hA)
+        have hstep := fun (hA : as.2.nmpOut = false) => finAsp_step al.windowSafe (hinv (hback hA)) (hsr hA) (hhigh hA)
         have := ih _ _ _ as.2 (by rw [hb2]; exact hg) htt2 (by rw [hb2]; exact hfin) (by rw [hb2]; exact hstep)
         rw [hb2] at this
         exact this
@@ -263,7 +287,7 @@ theorem aspiration_final (c : Comp σ π) (L : Limits) {Good : Board → Prop} {
 theorem aspiration_final01 (c : Comp σ π) (L : Limits) {Good : Board → Prop} {TTok : σ → Prop} {μ : Board → Nat}
     (hl : Laws c Good) (sl : ScoreLaws c Good TTok μ) (al : AspLaws c) (fuel : Nat) (idD : Int) (h01 : idD = 0 ∨ idD = 1) :
     ∀ (n : Nat) (alpha beta factor : Score) (s : St σ), Good s.board → TTA TTok t0 s → Final c.keys s.board →
-      (s.nmpOut = false → AspInv alpha beta factor) →
+      (s.nmpOut = false → AspInv c.windowSize alpha beta factor) →
       (∀ al be sa s', aspiration c L fuel idD n alpha beta factor s = .ok al be sa s' → s'.nmpOut = false →
         s'.pv.row 0 = [] ∧ (idD = 1 → sa = fsOf s.board)) := by
   intro n
@@ -273,12 +297,12 @@ theorem aspiration_final01 (c : Comp σ π) (L : Limits) {Good : Board → Prop}
     intro alpha beta factor s hg htt hfin hinv
     have hab := alphaBeta_spec c L hl fuel alpha beta idD 0 .pv s hg htt.1 (Int.le_refl 0)
     have hrg := alphaBeta_range c L hl sl fuel alpha beta idD 0 .pv s hg (Int.le_refl 0) (by decide)
-      (fun hA => (aspInv_win (hinv hA)).1) htt
+      (fun hA => (aspInv_win al.windowSafe (hinv hA)).1) htt
     have hany := fun (hb32 : beta ≤ 32528) (h1 : idD = 1) => alphaBeta_final_any c L hl fuel alpha beta idD (by omega)
       (fun se h => al.rfp_shallow idD se beta (by omega) (by omega) hb32 h) s hg htt.1 hfin
     have hrow : idD = 0 → (alphaBeta c L fuel alpha beta idD 0 .pv s).2.pv.row 0 = [] := by
       intro h; rw [h]; exact alphaBeta_depth0_row c L hl fuel alpha beta s hg htt.1
-    simp only [aspiration, al.window44]
+    simp only [aspiration]
     simp only at hany
     generalize alphaBeta c L fuel alpha beta idD 0 .pv s = r at hab hrg hany hrow ⊢
     have haf := abort_frame L r.2
@@ -305,7 +329,7 @@ theorem aspiration_final01 (c : Comp σ π) (L : Limits) {Good : Board → Prop}
         have hlt : r.1 < beta := Int.not_le.1 hin.2
         rcases h01 with h0 | h1
         · exact ⟨by rw [hap]; exact hrow h0, fun h => by omega⟩
-        · rcases hany (aspInv_win (hinv (hback hA))).2 h1 hrab with h | h
+        · rcases hany (aspInv_win al.windowSafe (hinv (hback hA))).2 h1 hrab with h | h
           · exact ⟨by rw [hap]; exact h.2, fun _ => h.1⟩
           · exact absurd hlt (Int.not_lt.2 h)
       · next hnin =>
@@ -315,7 +339,7 @@ theorem aspiration_final01 (c : Comp σ π) (L : Limits) {Good : Board → Prop}
           · by_cases h2 : beta ≤ r.1
             · exact Or.inr h2
             · exfalso; apply hnin; simp [h1, h2]
-        have hstep := fun (hA : as.2.nmpOut = false) => aspInv_step (hinv (hback hA)) (hsr hA) hout
+        have hstep := fun (hA : as.2.nmpOut = false) => aspInv_step al.windowSafe (hinv (hback hA)) (hsr hA) hout
         have hb2 : as.2.board = s.board := by rw [haf.board, hab.1.board]
         have := ih _ _ _ as.2 (by rw [hb2]; exact hg) htt2 (by rw [hb2]; exact hfin) hstep
         rw [hb2] at this
@@ -327,8 +351,8 @@ theorem idLoop_final (c : Comp σ π) (L : Limits) (clock : Clock) {Good : Board
     (hl : Laws c Good) (sl : ScoreLaws c Good TTok μ) (al : AspLaws c) (fuel : Nat) (b : Board) (hg : Good b)
     (hfin : Final c.keys b) (hd : 1 ≤ L.depth) :
     ∀ (n : Nat) (idD : Int) (v : IDVars) (s : St σ), s.board = b → 0 ≤ idD → (n : Int) + idD = 64 →
-      TTA TTok t0 s → (s.nmpOut = false → idD ≤ 1 → AspInv v.alpha v.beta 1) →
-      (s.nmpOut = false → 2 ≤ idD → FinAsp (fsOf b) v.alpha v.beta 1 ∧ v.score = fsOf b) →
+      TTA TTok t0 s → (s.nmpOut = false → idD ≤ 1 → AspInv c.windowSize v.alpha v.beta 1) →
+      (s.nmpOut = false → 2 ≤ idD → FinAsp c.windowSize (fsOf b) v.alpha v.beta 1 ∧ v.score = fsOf b) →
       (s.nmpOut = false → v.move = 0) →
       (idLoop c L clock fuel n idD v s).st.nmpOut = false →
       (idLoop c L clock fuel n idD v s).st.aborted = false →
@@ -422,14 +446,14 @@ theorem idLoop_final (c : Comp σ π) (L : Limits) (clock : Clock) {Good : Board
           · push_cast at hn ⊢; omega
           · exact htt'.congr rfl rfl
           · intro hA _
-            show AspInv (wrapS16 (sample - c.windowSize)) (wrapS16 (sample + c.windowSize)) 1
-            rw [al.window44]; exact aspInv_first (hokc' hA).1
+            show AspInv c.windowSize (wrapS16 (sample - c.windowSize)) (wrapS16 (sample + c.windowSize)) 1
+            exact aspInv_first al.windowSafe (hokc' hA).1
           · intro hA h2
             have hv : sample = fsOf b := (hokc' hA).2.2 (by omega)
             refine ⟨?_, hv⟩
-            show FinAsp (fsOf b) (wrapS16 (sample - c.windowSize)) (wrapS16 (sample + c.windowSize)) 1
-            rw [al.window44, hv]
-            refine finAsp_first ?_
+            show FinAsp c.windowSize (fsOf b) (wrapS16 (sample - c.windowSize)) (wrapS16 (sample + c.windowSize)) 1
+            rw [hv]
+            refine finAsp_first al.windowSafe ?_
             rcases fsOf_cases b with e | e
             · exact Or.inl e
             · exact Or.inr e
